@@ -339,6 +339,74 @@ class NetRun:
         self.trace.append(("ok", text[:60], [o[0][:40] for o in out][:4]))
         return ok
 
+    def op_chunk(self, items):
+        """Several lines delivered in ONE chunk (device flavours only): the reader frames them and
+        queues one job per line before the pump runs.  Afterwards every write is attributed to
+        the line whose processing produced it by the begin-markers the world puts into the
+        device log, and the per-line oracle runs in processing order."""
+        world = self.world
+        dev = world.device
+        data = b"".join(text.encode("utf-8", "surrogateescape") + ending.encode() for text, ending in items)
+        m0 = len(dev.markers)
+        l0 = len(world.logic_log)
+        w0 = self.last_w
+        cb0 = self.last_cb
+        off = self.cfg.get("utc_offset", 0)
+        t_before = world.sim.time()
+        world.feed(data)
+        t_after = world.sim.time()
+        markers = dev.markers[m0:]
+        logic = [list(e) for e in world.logic_log[l0:]]
+        writes = dev.writes[w0:]
+        self.last_w = len(dev.writes)
+        all_cbs = world.callbacks[cb0:]
+        self.last_cb = len(world.callbacks)
+        self.probe("chunks")
+        if len(items) > 1:
+            self.probe("multi_line_chunks")
+        self.health()
+        if len(markers) != len(items) or len(logic) != len(items):
+            self.add(vio("reply-missing", {"note": "not every line of the chunk was processed", "lines": [i[0] for i in items],
+                                           "processed": [m[1][1] for m in markers]}, model_kind="chunk"))
+            raise StopRun()
+        window = (int(t_before + off), int(t_after + off))
+        bounds = [m[0] for m in markers] + [10 ** 12]
+        for k, (text, _ending) in enumerate(items):
+            seg = []
+            for _t, seq, _cid, _is_open, payload in writes:
+                if bounds[k] < seq <= bounds[k + 1]:
+                    try:
+                        line = payload.decode("utf-8")
+                    except UnicodeDecodeError:
+                        line = payload.decode("utf-8", "replace")
+                    well = line.endswith("\n") and line.count("\n") == 1
+                    line = line[:-1] if line.endswith("\n") else line
+                    if line == PROBE_PREFIX and self.flavour in ("tcp", "atcp"):
+                        continue
+                    seg.append((line, well))
+            cb_lo = logic[k][1] - cb0
+            cb_hi = (logic[k][3] if logic[k][3] is not None else logic[k][1]) - cb0
+            cbs = all_cbs[cb_lo:cb_hi]
+            if k > 0 and seg and self.model.nodes:
+                self.probe("reply_inside_chunk")
+            tier, fields = classify(text, self.version)
+            self.probe("tierA_lines" if tier == "A" else "tierB_lines")
+            if fields is None:
+                self.probe("rejected_lines")
+                if seg or cbs:
+                    self.add(vio("rejected-line-had-effect", {"line": text, "tier": tier, "out": seg[:5], "callbacks": [c[0] for c in cbs][:5],
+                                                              "in_chunk": True}, tier=tier))
+                self.trace.append(("rej", text[:60]))
+                continue
+            self.probe("accepted_lines")
+            exp = self.model.on_line(fields, window)
+            self.kinds.add(exp.kind)
+            self.cur_kind = exp.kind
+            # the state visible inside the callback is that of the line, the final tree is checked below
+            self._check_expect(exp, fields, seg, [(c[0], None) for c in cbs], window, text)
+            self.trace.append(("ok", text[:60], [o[0][:40] for o in seg][:4]))
+        self._check_state("chunk ending with " + items[-1][0][:40])
+
     # ------------------------------------------------------------------ oracles
     def _check_emitted(self, out, allowed_nodes):
         """Universal C05 clause: canonical, valid for the version, addressed."""
@@ -802,6 +870,8 @@ class NetRun:
             kind = op[0]
             if kind == "line":
                 self.op_line(op[1], op[2] if len(op) > 2 else "\n")
+            elif kind == "chunk":
+                self.op_chunk([(it[0], it[1] if len(it) > 1 else "\n") for it in op[1]])
             elif kind == "set":
                 self.op_set(op[1], op[2], op[3], op[4], op[5] if len(op) > 5 else {})
             elif kind == "fw":
